@@ -348,30 +348,39 @@ Definition mst_oracle (g : graph) (r : mst_out) : bool :=
   && llN_eqb (wcc_of g nbrs) comps                                                              (* F connects what G connects *)
   && N.eqb total (kruskal_weight g).
 
-(* k-core: the k-core is what remains after repeatedly deleting nodes of degree < k *)
-Definition prune_once (g : graph) (k : N) (s : list N) : list N :=
-  filter (fun v => N.leb k (N.of_nat (length (filter (fun w => mem w s) (und_nbrs g v))))) s.
-Definition kcore_set (g : graph) (k : N) : list N := iter (length (gnodes g)) (prune_once g k) (node_ids g).
-Definition core_spec (g : graph) : list (N * N) :=
-  let ks := N_seq (N.succ (N.of_nat (length (gnodes g)))) in
-  let cores := map (fun k => (k, kcore_set g k)) ks in
-  map (fun v => (v, fold_left (fun best kc => if mem v (snd kc) then N.max best (fst kc) else best) cores 0))
+(* k-core: the k-core is what remains after repeatedly deleting nodes of degree < k.
+   The neighbour table and the k-cores for k = 0..|V|+1 are computed once per graph. *)
+Definition nbr_table (g : graph) : list (N * list N) := map (fun v => (v, und_nbrs g v)) (node_ids g).
+Definition prune_once (tbl : list (N * list N)) (k : N) (s : list N) : list N :=
+  filter (fun v => N.leb k (N.of_nat (length (filter (fun w => mem w s)
+                                                   (match aget tbl v with Some l => l | None => [] end))))) s.
+Definition kcore_set_t (g : graph) (tbl : list (N * list N)) (k : N) : list N :=
+  iter (length (gnodes g)) (prune_once tbl k) (node_ids g).
+Definition kcore_set (g : graph) (k : N) : list N := kcore_set_t g (nbr_table g) k.
+Definition kcore_table (g : graph) : list (N * list N) :=
+  let tbl := nbr_table g in
+  map (fun k => (k, sort_N (kcore_set_t g tbl k))) (N_seq (N.of_nat (length (gnodes g)) + 2)).
+Definition core_spec_t (g : graph) (kt : list (N * list N)) : list (N * N) :=
+  map (fun v => (v, fold_left (fun best kc => if mem v (snd kc) then N.max best (fst kc) else best) kt 0))
       (sort_N (node_ids g)).
+Definition core_spec (g : graph) : list (N * N) := core_spec_t g (kcore_table g).
 Definition pairs_eqb := list_eqb (pair_eqb N.eqb N.eqb).
 (* k-core outputs: core numbers, degeneracy (kcore_decomposition and degeneracy()), whether the
    `cores` grouping matches the core numbers, and for every k = 0..|V|: kcore_subgraph(k), shell(k) *)
 Definition kcore_out := (list (N * N) * N * N * bool * list (N * list N * list N))%type.
-Definition kcore_oracle (g : graph) (r : kcore_out) : bool :=
+Definition kcore_oracle_t (g : graph) (kt : list (N * list N)) (r : kcore_out) : bool :=
   let '(cs, dg, dg2, grouped, perk) := r in
-  let spec := core_spec g in
+  let spec := core_spec_t g kt in
   let dspec := fold_left (fun m p => N.max m (snd p)) spec 0 in
+  let kc k := match aget kt k with Some l => l | None => [] end in
   pairs_eqb cs spec && N.eqb dg dspec && N.eqb dg2 dspec && grouped
   && lN_eqb (map (fun x => fst (fst x)) perk) (N_seq (N.succ (N.of_nat (length (gnodes g)))))
   && forallb (fun x => let '(k, sub, shell) := x in
                        (* the k-core by its definition: what is left after repeatedly deleting nodes of degree < k *)
-                       lN_eqb sub (sort_N (kcore_set g k))
-                       && lN_eqb shell (sort_N (filter (fun v => negb (mem v (kcore_set g (k + 1)))) (kcore_set g k))))
+                       lN_eqb sub (kc k)
+                       && lN_eqb shell (filter (fun v => negb (mem v (kc (k + 1)))) (kc k)))
              perk.
+Definition kcore_oracle (g : graph) (r : kcore_out) : bool := kcore_oracle_t g (kcore_table g) r.
 
 (* triangles of the underlying simple graph *)
 Definition tri_list (g : graph) : list (N * N * N) :=
@@ -440,14 +449,75 @@ Definition bicon_blocks_ok (g : graph) (r : bicon_out) : bool :=
 (* algo case: graph and the canonicalised outputs of the six algorithms (None = error/panic) *)
 Definition algo_case :=
   (graph * option (list (list N) * bool) * option (list (list N) * bool) * option mst_out
-   * option kcore_out * option (N * list (N * N)) * option bicon_out)%type.
+   * option kcore_out * option (N * list (N * N)) * option bicon_out * option kcore_out)%type.
 Definition check_algo (c : algo_case) : N :=
-  let '(g, scc, wcc, mst, kc, tri, bic) := c in
+  let '(g, scc, wcc, mst, kc, tri, bic, kcd) := c in
+  let kt := kcore_table g in
   vall [
+    (* k-core with the default config: the definition is on the undirected graph either way *)
+    match kcd with Some r => if kcore_oracle_t g kt r then V_OK else V_VIOLATION | None => V_VIOLATION end;
     match scc with Some (ms, okc) => if okc && llN_eqb ms (scc_spec g) then V_OK else V_VIOLATION | None => V_VIOLATION end;
     match wcc with Some (ms, okc) => if okc && llN_eqb ms (wcc_spec g) then V_OK else V_VIOLATION | None => V_VIOLATION end;
     match mst with Some r => if mst_oracle g r then V_OK else V_VIOLATION | None => V_VIOLATION end;
-    match kc with Some r => if kcore_oracle g r then V_OK else V_VIOLATION | None => V_VIOLATION end;
+    match kc with Some r => if kcore_oracle_t g kt r then V_OK else V_VIOLATION | None => V_VIOLATION end;
     match tri with Some r => if tri_oracle g r then V_OK else V_VIOLATION | None => V_VIOLATION end;
     match bic with Some r => if bicon_points_ok g r && bicon_blocks_ok g r then V_OK else V_VIOLATION | None => V_VIOLATION end
   ].
+
+(* ---------------------------------------------------------------- all minimum-weight paths: oracle only.
+   Every returned path is a real direction-respecting walk whose weights sum to its own and to the
+   reported total; the total is the minimum (reference Bellman-Ford); no path is returned twice;
+   and (unless the max_paths cap was reached) every SIMPLE minimum-weight path -- enumerated by
+   brute force -- is returned.  With zero-weight cycles there are infinitely many minimum-weight
+   walks; non-simple ones may or may not be returned. *)
+Inductive xres := XOk (total : N) (ps : list (list N * list N * N)) | XNotFound | XNoNode (n : N) | XErr.
+(* all simple paths from `from` (reversed node/edge lists), by extension *)
+Fixpoint simple_ext (g : graph) (k : nat) (ws : list (list N * list N)) : list (list N * list N) :=
+  ws ++ match k with
+        | O => []
+        | S k' =>
+            simple_ext g k'
+              (flat_map (fun w =>
+                           let u := hd 0 (fst w) in
+                           flat_map (fun e =>
+                                       let ext v := if fwd e u v && negb (mem v (fst w)) then [(v :: fst w, eid e :: snd w)] else [] in
+                                       ext (eto e) ++ (if N.eqb (efrom e) (eto e) then [] else ext (efrom e)))
+                                    (gedges g)) ws)
+        end.
+Fixpoint simple_levels (g : graph) (k : nat) (ws : list (list N * list N)) : list (list N * list N) :=
+  match k with
+  | O => ws
+  | S k' =>
+      let next := flat_map (fun w =>
+                    let u := hd 0 (fst w) in
+                    flat_map (fun e =>
+                                let ext v := if fwd e u v && negb (mem v (fst w)) then [(v :: fst w, eid e :: snd w)] else [] in
+                                ext (eto e) ++ (if N.eqb (efrom e) (eto e) then [] else ext (efrom e)))
+                             (gedges g)) ws in
+      ws ++ match next with [] => [] | _ => simple_levels g k' next end
+  end.
+Definition simple_min_paths (g : graph) (from to total : N) : list (list N * list N) :=
+  map (fun w => (rev (fst w), rev (snd w)))
+      (filter (fun w => N.eqb (hd 0 (fst w)) to && N.eqb (walk_weight g (snd w)) total)
+              (simple_levels g (length (gnodes g)) [([from], [])])).
+
+Definition allw_oracle (g : graph) (from to : N) (r : xres) : bool :=
+  match r with
+  | XOk total ps =>
+      node_exists g from && node_exists g to
+      && option_eqb N.eqb (aget (ref_wdists g 0 from) to) (Some total)
+      && forallb (fun p => let '(ns, es, t) := p in
+                           path_ok g fwd from to ns es && N.eqb (walk_weight g es) t && N.eqb t total) ps
+      && nodup_paths (map fst ps)
+      && (if N.ltb (N.of_nat (length ps)) 1000
+          then subset_paths (simple_min_paths g from to total) (map fst ps) else true)
+  | XNotFound =>
+      node_exists g from && node_exists g to
+      && match aget (ref_wdists g 0 from) to with None => true | Some _ => false end
+  | XNoNode n => nonode_ok g from to n
+  | XErr => false
+  end.
+Definition allw_case := (graph * list (N * N * xres))%type.
+Definition check_allw (c : allw_case) : N :=
+  let '(g, items) := c in
+  vall (map (fun it => let '(from, to, r) := it in if allw_oracle g from to r then V_OK else V_VIOLATION) items).
